@@ -276,3 +276,71 @@ def gen_history(rng, name, be=None, pk=None, max_iter=1, nupd=None, dims=None, s
             "prec_iter": st["preconditioner_iter"], "scale_cost": st["preconditioner_scale_cost"],
             "refine": st["iterative_refinement_always_enabled"]}
     return {"name": name, "lines": L, "meta": meta, "snaps": snaps, "settings": st}
+
+
+class Hist:
+    """Composable builder of `sol.*` histories."""
+
+    def __init__(self, rng, name, be, pk, settings, prob=None, dims=None, bounds=None):
+        self.rng, self.name, self.be, self.pk, self.st = rng, name, be, pk, dict(settings)
+        self.sparse = be != 0
+        self.prob = prob or Problem(rng, *(dims or (None, None, None)), bounds=bounds)
+        if bounds is not None:
+            self.prob.has_lb = self.prob.has_ub = True
+        self.L = [f"sol.new {be} {pk} -1", CONSTS_LINE, settings_line(self.st)]
+        self.ops = []
+        self.snaps = []
+        self.dense_sqrt = rng.choice([-1, 4]) if self.prob.n <= 2 else -1
+        self.is_setup = False
+
+    def settings(self, **over):
+        self.st.update(over)
+        self.L.append(settings_line(self.st))
+        self.ops.append("settings")
+        return self
+
+    def setup(self, dump=True):
+        self.L.append("sol.sqrtmode -1")
+        self.L.append(self.prob.setup_line(self.sparse))
+        if self.sparse:
+            self.L.append("sol.perm")
+        if dump:
+            self.L.append("sol.dump")
+        self.ops.append("setup")
+        self.is_setup = True
+        return self
+
+    def update(self, mask, reuse, dump=True):
+        self.L.append("sol.sqrtmode -1")
+        self.L.append(self.prob.update_line(self.rng, self.sparse, subset_of(mask), reuse))
+        if dump:
+            self.L.append("sol.dump")
+        self.ops.append(f"update({mask},{int(reuse)})")
+        return self
+
+    def solve(self, dump=True, check=True):
+        self.L.append(f"sol.sqrtmode {self.dense_sqrt}" if self.be == 0 else "sol.sqrtmode -1")
+        self.L.append("sol.solve")
+        if dump:
+            self.L.append("sol.dump")
+        if check and self.is_setup:
+            self.L.append(check_line(self.prob.snapshot()))
+        self.ops.append("solve")
+        self.snaps.append(self.prob.snapshot())
+        return self
+
+    def raw(self, line, op):
+        self.L.append(line)
+        self.ops.append(op)
+        return self
+
+    def dump(self):
+        self.L.append("sol.dump")
+        return self
+
+    def case(self, **meta):
+        m = {"be": self.be, "pk": self.pk, "n": self.prob.n, "p": self.prob.p, "m": self.prob.m, "ops": list(self.ops),
+             "max_iter": self.st["max_iter"], "prec_iter": self.st["preconditioner_iter"],
+             "scale_cost": self.st["preconditioner_scale_cost"], "refine": self.st["iterative_refinement_always_enabled"]}
+        m.update(meta)
+        return {"name": self.name, "lines": list(self.L), "meta": m, "snaps": list(self.snaps), "settings": dict(self.st)}
